@@ -7,7 +7,8 @@ PID = "C18"
 PROPS = ["Props/C18.v"]
 GEN = ["Env.v"]
 MODEL_IS_SPEC = False
-RULE = ("data given as graphs of cells (so that self-referential structures can be described): nested arrays/objects of depth limit-2 .. limit+2 for limits 1-6, 99-101 and 1100 (2000 in thorough runs), "
+RULE = ("every value also reached below the root (through child segments, after a wildcard, and as '@..*' inside a filter): same outcome as at the root; "
+        "data given as graphs of cells (so that self-referential structures can be described): nested arrays/objects of depth limit-2 .. limit+2 for limits 1-6, 99-101 and 1100 (2000 in thorough runs), "
         "with the deep branch first / last / in the middle and a scalar or empty container at the bottom; cyclic structures (self-loop, 2- and 3-cycles through arrays and objects, a cycle "
         "below an acyclic prefix); random small graphs (DAGs with shared sub-structures and graphs with back edges); each is evaluated with '$..*' by an environment configured with that "
         "limit, in deterministic mode (outcome and locations compared with the graph model) and in nondeterministic mode (all random outcomes enumerated for small graphs, sampled otherwise: "
@@ -145,10 +146,37 @@ def cases(ctx, budget):
             res.add(out); n += 1
         return res, n
 
+    def below_root(cells, limit, nd):
+        """the same value reached through child segments / inside a filter: the depth is counted from the node '..' is applied to"""
+        data = build(cells)
+        res = {}
+        for name, doc, text, strip in (("child-prefix", {"p": [0, data]}, "$.p[1]..*", 2), ("filter", [data], "$[?count(@..*) >= 0]", None),
+                                       ("after-wildcard", [data], "$[*]..*", 1)):
+            signal.alarm(20)
+            try:
+                nodes = env_for(limit, nd).find(text, doc)
+                res[name] = ("ok", [tuple(nd_.location[strip:]) for nd_ in nodes] if (strip is not None and not nd) else None)
+            except Alarm: res[name] = ("timeout", None)
+            except Exception as ex: res[name] = (type(ex).__name__, None)
+            finally: signal.alarm(0)
+        return res
+
     def mk(cells, limit, kind, nontriv, nd_cap):
         out, dt = det(cells, limit)
         yield Case({"cells": cells if len(cells) < 40 else len(cells), "limit": limit, "mode": "deterministic", "seconds": round(dt, 3)},
                    [11, limit] + enc_graph(cells), out, None, None, nontriv, kind)
+        if len(cells) < 400:
+            want_cls = "ok" if out[0] == 0 else ("JSONPathRecursionError" if out[:2] == [1, 6] else "other")
+            for nd in (False, True):
+                for name, (cls, locs) in below_root(cells, limit, nd).items():
+                    prob = None
+                    if cls != want_cls: prob = "%s (%s mode): %s, but '$..*' on the same value: %s" % (name, "nondeterministic" if nd else "deterministic", cls, want_cls)
+                    elif locs is not None and out[0] == 0:
+                        root_run = [tuple(n_.location) for n_ in env_for(limit, False).find("$..*", build(cells))]
+                        if locs != root_run: prob = "%s: nodes differ from '$..*' applied at the root" % name
+                    desc = {"cells": cells, "limit": limit, "mode": "nondeterministic" if nd else "deterministic", "applied": name}
+                    if prob: yield Case(desc, None, [9], [118, 0], None, True, kind + "-below-root", True, lambda a, b, p=prob: p)
+                    else: yield Case(desc, None, [0], None, None, nontriv, kind + "-below-root")
         if nd_cap:
             outs, n = nd_outcomes(cells, limit, nd_cap)
             want = {"ok"} if out[0] == 0 else {"rec"}
